@@ -478,9 +478,14 @@ pub fn gen_name(src: &mut Src, cfg: &GenCfg) -> Name {
     Name::from(s.as_str())
 }
 
+/// a count that is small most of the time and now and then far beyond what ordinary content streams hold (operands of one
+/// operator, elements of one array, bytes of one string), at and around powers of two
+pub fn many(src: &mut Src, small: u32) -> usize {
+    if src.draw(20) == 0 { src.label("many"); *src.pick(&[15usize, 16, 17, 31, 32, 33, 34, 63, 64, 65, 127, 128, 129, 255, 256, 257, 300, 1000, 2500]) } else { src.draw(small) as usize }
+}
 const PLAIN_STR_BYTES: &[u8] = b"a bcdefgXYZ0123456789 .,;:-_!?*+/<>[]{}%#'\"~";
 pub fn gen_bytes(src: &mut Src, cfg: &GenCfg) -> Vec<u8> {
-    let len = src.draw(7) as usize;
+    let len = many(src, 7);
     let mut v = Vec::new();
     for _ in 0..len {
         let c = if cfg.any_strings { src.draw(16) } else { 0 };
@@ -513,7 +518,8 @@ fn gen_scalar(src: &mut Src, cfg: &GenCfg) -> Primitive {
 }
 pub fn gen_dict(src: &mut Src, cfg: &GenCfg, depth: u32) -> Dictionary {
     let mut d = Dictionary::new();
-    let k = src.draw(4);
+    let k = many(src, 4).min(300);
+    let depth = if k > 4 { 0 } else { depth };
     for _ in 0..k {
         let key = gen_name(src, cfg);
         let val = gen_prim(src, cfg, depth);
@@ -525,7 +531,7 @@ pub fn gen_dict(src: &mut Src, cfg: &GenCfg, depth: u32) -> Dictionary {
 pub fn gen_prim(src: &mut Src, cfg: &GenCfg, depth: u32) -> Primitive {
     let c = if depth == 0 { 0 } else { src.draw(6) };
     match c {
-        4 => { let k = src.draw(4); Primitive::Array((0..k).map(|_| gen_prim(src, cfg, depth - 1)).collect()) }
+        4 => { let k = many(src, 4); let d = if k > 4 { 0 } else { depth - 1 }; Primitive::Array((0..k).map(|_| gen_prim(src, cfg, d)).collect()) }
         5 => Primitive::Dictionary(gen_dict(src, cfg, depth - 1)),
         _ => gen_scalar(src, cfg),
     }
@@ -544,7 +550,7 @@ fn gen_color(src: &mut Src, cfg: &GenCfg) -> Color {
         1 => Color::Rgb(Rgb { red: gen_num(src, cfg), green: gen_num(src, cfg), blue: gen_num(src, cfg) }),
         2 => Color::Cmyk(Cmyk { cyan: gen_num(src, cfg), magenta: gen_num(src, cfg), yellow: gen_num(src, cfg), key: gen_num(src, cfg) }),
         _ => {
-            let k = src.draw(5);
+            let k = many(src, 5);
             let mut v: Vec<Primitive> = (0..k).map(|_| if src.draw(3) == 0 { Primitive::Integer(gen_int(src, cfg)) } else { Primitive::Number(gen_num(src, cfg)) }).collect();
             match src.draw(6) {
                 0 | 1 => v.push(Primitive::Name(gen_name(src, cfg).as_str().into())),
@@ -610,7 +616,7 @@ pub fn gen_op(src: &mut Src, cfg: &GenCfg, kind: usize, st: &PathState) -> Op {
         "EndPath" => Op::EndPath,
         "Clip" => Op::Clip { winding: gen_winding(src) },
         "Transform" => Op::Transform { matrix: gen_matrix(src, cfg) },
-        "Dash" => { let k = src.draw(5); Op::Dash { pattern: (0..k).map(|_| gen_num(src, cfg)).collect(), phase: gen_num(src, cfg) } }
+        "Dash" => { let k = many(src, 5); Op::Dash { pattern: (0..k).map(|_| gen_num(src, cfg)).collect(), phase: gen_num(src, cfg) } }
         "LineJoin" => Op::LineJoin { join: [LineJoin::Miter, LineJoin::Round, LineJoin::Bevel][src.draw(3) as usize] },
         "LineCap" => Op::LineCap { cap: [LineCap::Butt, LineCap::Round, LineCap::Square][src.draw(3) as usize] },
         "MiterLimit" => Op::MiterLimit { limit: gen_num(src, cfg) },
@@ -639,7 +645,7 @@ pub fn gen_op(src: &mut Src, cfg: &GenCfg, kind: usize, st: &PathState) -> Op {
         "TextNewline" => Op::TextNewline,
         "TextDraw" => Op::TextDraw { text: gen_string(src, cfg) },
         "TextDrawAdjusted" => {
-            let k = src.draw(5);
+            let k = many(src, 5);
             Op::TextDrawAdjusted { array: (0..k).map(|_| if src.draw(2) == 0 { TextDrawAdjusted::Text(gen_string(src, cfg)) } else { TextDrawAdjusted::Spacing(gen_num(src, cfg)) }).collect() }
         }
         "BeginMarkedContent" => Op::BeginMarkedContent { tag: gen_name(src, cfg), properties: if src.draw(2) == 0 { None } else { Some(gen_props(src, cfg)) } },
